@@ -478,7 +478,32 @@ def r18_9(ctx: Ctx) -> None:
     ctx.floor("R18.9", n, 2, "_extract calls in extract/extractall")
 
 
+def r18_10(ctx: Ctx) -> None:
+    """'preparation is reported first' - of an extraction that takes place: every refusal that is decided while the outputs are PLANNED (the
+    loop that registers an output per member: a member that would be written over the archive, a name that leaves the destination) is raised
+    before the 'pre' event is queued.  A callback that was told of the preparation waits for a post-processing event that never comes."""
+    f = shared.szf(ctx, "_extract")
+    cfg = cfg_of(f.node)
+    pre = [c for t, c in puts(f) if t == "pre"]
+    ctx.floor("R18.10", len(pre), 1, "'pre' event in _extract")
+    regl = [lp for lp in walk(f.node) if isinstance(lp, ast.For) and any(isinstance(x, ast.Call) and attr_tail(x) == "register_filelike" for x in ast.walk(lp))]
+    ctx.floor("R18.10", len(regl), 1, "registration loop in _extract")
+    n = 0
+    for lp in regl:
+        for r in [x for st in lp.body for x in ast.walk(st) if isinstance(x, ast.Raise)] + [
+                c for st in lp.body for c in ast.walk(st) if isinstance(c, ast.Call) and attr_tail(c) == "get_sanitized_output_path"]:
+            n += 1
+            for p_ in pre:
+                late = cfg.reaches(q.node_for(f, p_), q.node_for(f, r))
+                ctx.check(not late, "R18.10", f, r, "a refusal decided while the outputs are planned comes before the 'pre' event",
+                          f"`{norm(r)[:90]}` can follow the 'pre' event: an extraction that is refused before any member is touched (a member named like the archive in the archive's own "
+                          "directory, a name that leaves the destination) has already told the callback that preparation started, and no post-processing event follows",
+                          construct="pre event before a planning refusal")
+    ctx.floor("R18.10", n, 2, "refusals / sanitiser calls in the registration loop")
+
+
 def run(ctx: Ctx) -> None:
+    r18_10(ctx)
     r18_9(ctx)
     r18_8(ctx)
     r18_7(ctx)
